@@ -215,6 +215,19 @@ def main(argv=None):
             path, confirmed, out = replay_native(a.prop, cn, o['name'], o.get('witness'), a.repo, outdir,
                                                  dict(path_condition=o.get('pc'), goal=o.get('goal'), backend=o['backend'],
                                                       verifier_detail=o.get('detail')))
+            if not confirmed:
+                # the obligation is refuted but this witness does not reproduce natively: search the contract's
+                # input space for one that does (native code, concrete clauses)
+                try:
+                    p2 = subprocess.run([sys.executable, '-m', 'pyvc.replay', '--search', '40', path], cwd=ROOT,
+                                        capture_output=True, text=True, timeout=900, env=dict(os.environ, PYVC_REPO=a.repo))
+                    if p2.returncode == 1:
+                        confirmed = True
+                        rec = json.load(open(path))
+                        rec['native_replay'] = dict(confirmed=True, output=(p2.stdout + p2.stderr)[-2500:])
+                        json.dump(rec, open(path, 'w'), indent=1, default=str)
+                except subprocess.TimeoutExpired:
+                    pass
             if not confirmed and o['backend'].startswith('z3-model'):
                 # a solver model that the native code does not reproduce: the model may assign impossible values to
                 # symbols that stand for callee results (contracts are weaker than bodies) -> undecided, not a violation
